@@ -508,16 +508,33 @@ def check_vectors_and_spaces(ctx: Ctx, py: PyProgram, rs: RustProgram) -> None:
         ctx.violation("C17/vectors-spaces", f"{e_rel}::power_on_reset::vector", f"power_on_reset reads its vector through {sorted(uses)}", e_rel)
     # pce500/emulator.py literal vector reads: every literal must be one of the two vectors and match its role
     mod = py.module("pce500/emulator.py")
+    from ..pyfacts import PyEval as _PyEval, NotConst as _NotConst
     for q, f in mod.functions():
-        for v, ln, txt in _py_literal_addr_reads(f, py, mod):
-            if "read_long" not in txt or v < 0xFFF00:
+        for c in ast.walk(f):
+            if not (isinstance(c, ast.Call) and isinstance(c.func, ast.Attribute) and c.func.attr == "read_long" and c.args):
+                continue
+            try:
+                v = _PyEval(py, mod).eval(c.args[0])
+            except _NotConst:
+                continue
+            if not isinstance(v, int) or isinstance(v, bool) or v < 0xFFF00:
                 continue
             n += 1
-            role = "reset" if ("reset" in q.lower() or "load_rom" in q.lower() or "entry" in txt.lower()) else None
+            txt = unparse(c)
+            ln = c.lineno
+            # role from the statement the read sits in: what is the loaded value called / used for
+            stmt_txt = ""
+            for st in ast.walk(f):
+                if isinstance(st, ast.stmt) and any(x is c for x in ast.walk(st)) and not isinstance(st, (ast.FunctionDef, ast.If, ast.For, ast.While, ast.Try, ast.With)):
+                    stmt_txt = unparse(st)
+            low = (q + " " + stmt_txt).lower()
+            role = "reset" if any(k in low for k in ("reset", "load_rom", "entry", "bootstrap", "__init__")) else ("interrupt" if any(k in low for k in ("vector_addr", "irq", "interrupt")) else None)
             if v not in (iv, ep):
-                ctx.violation("C17/vectors-spaces", f"pce500/emulator.py::{q}::{txt}", f"literal vector address {v:#x} is neither INTERRUPT_VECTOR_ADDR nor ENTRY_POINT_ADDR", f"pce500/emulator.py:{ln}")
+                ctx.violation("C17/vectors-spaces", f"pce500/emulator.py::{q}::vector read {v:#x}", f"{q}: `{txt}` reads {v:#x}, which is neither INTERRUPT_VECTOR_ADDR nor ENTRY_POINT_ADDR", f"pce500/emulator.py:{ln}")
             elif role == "reset" and v != ep:
-                ctx.violation("C17/vectors-spaces", f"pce500/emulator.py::{q}::{txt}", f"reset path reads {v:#x}, ENTRY_POINT_ADDR is {ep:#x}", f"pce500/emulator.py:{ln}")
+                ctx.violation("C17/vectors-spaces", f"pce500/emulator.py::{q}::reset path reads the interrupt vector", f"{q}: `{stmt_txt[:80]}` loads the start address from {v:#x}; the reset vector (ENTRY_POINT_ADDR, Rust ROM_RESET_VECTOR_ADDR) is {ep:#x}", f"pce500/emulator.py:{ln}")
+            elif role == "interrupt" and v != iv:
+                ctx.violation("C17/vectors-spaces", f"pce500/emulator.py::{q}::interrupt path reads the reset vector", f"{q}: `{stmt_txt[:80]}` loads the handler address from {v:#x}; INTERRUPT_VECTOR_ADDR is {iv:#x}", f"pce500/emulator.py:{ln}")
     # IR.lift uses INTERRUPT_VECTOR_ADDR by name
     irl = py.func(isa.INSTR_PY, "IR.lift")
     names = {nd.id for nd in ast.walk(irl) if isinstance(nd, ast.Name)}
